@@ -120,6 +120,17 @@ def main(argv):
         # a new branch that no generated input reaches is code the model was never compared with
         cov = drift.Coverage(drift.new_statements(ctx.drift) if ctx.drift else [], common.RUN)
         cov.start()
+        # reach on the unchanged tree (measurement only, never a verdict): which statements of the anchored functions
+        # do this run's inputs execute?  thorough: always; quick: with VERIF_COVERAGE=1
+        acov = None
+        if ctx.thorough() or os.environ.get("VERIF_COVERAGE") == "1":
+            try:
+                acov = drift.AnchorCoverage(
+                    drift.anchor_statements(prop, getattr(mod, "ANCHORS", ()), getattr(mod, "COVERAGE_KEEP", ())), common.RUN, tag=prop + "-")
+                acov.start()
+            except Exception as e:
+                ctx.notes.append(f"anchor coverage not measured: {type(e).__name__}: {e}")
+                acov = None
         ctx.matchers = getattr(mod, "MATCHERS", {}) or {}
         try:
             mod.run(ctx)
@@ -143,6 +154,13 @@ def main(argv):
             ctx.notes.append("the harness's own oracle raised while driving changed code: correspondence incomplete")
         finally:
             cov.stop()
+            if acov is not None:
+                try:
+                    acov.stop()
+                    ctx.anchor_coverage = acov.summary()
+                    acov.cleanup()
+                except Exception as e:
+                    ctx.notes.append(f"anchor coverage not measured: {type(e).__name__}: {e}")
         one = cov.one_sided()
         if one:
             ctx.one_sided = one
